@@ -19,7 +19,7 @@ from vf.xmodel import Schema, Rop, Shadow, Bound
 SHARDS = {'quick': 16, 'thorough': 64}
 TIMEOUT = {'quick': 1500, 'thorough': 7200}
 MUST_HIT = ['Call.python-function', 'Call.python-bridge', 'Call.python-class-operation',
-            'Call.derived-attribute-early-bare-return', 'Call.argument-order-observable', 'Call.earlier-component-rechecked', 'Call.builtin-external-entity', 'Call.legacy-keyword-bridge', 'Call.legacy-keyword-transform', 'Call.python-instance-operation', 'Call.derived-attribute', 'Call.derived-attribute-outside-state', 'Call.enumerator', 'Call.constant',
+            'Call.derived-attribute-early-bare-return', 'Scope.local-named-like-parameter', 'Call.argument-order-observable', 'Call.earlier-component-rechecked', 'Call.builtin-external-entity', 'Call.legacy-keyword-bridge', 'Call.legacy-keyword-transform', 'Call.python-instance-operation', 'Call.derived-attribute', 'Call.derived-attribute-outside-state', 'Call.enumerator', 'Call.constant',
             'Call.nested', 'Call.recursive', 'Call.bare-return', 'Call.no-return', 'Call.in-where-clause',
             'Call.in-loop-condition', 'Scope.caller-variable-kept', 'State.compared']
 MUST_REACH = ['bridgepoint/ooaofooa.py:mk_function', 'bridgepoint/ooaofooa.py:mk_bridge',
@@ -96,6 +96,7 @@ def call_node(e, args, target=None):
 
 
 LEGACY = {}
+SHADOWED = [0]
 ARG_ORDER = [0]
 PREVIOUS = []
 DER_FORMS = {}
@@ -306,6 +307,12 @@ class ModelGen(object):
                 if v not in locals_ or locals_[v] == BOOL:
                     stmts.append(oalsem.assign(oalsem.var(v), oalsem.bin_(op, left, call_node(eff[0], {}))))
                     locals_[v] = BOOL
+        # a local variable that carries the name of a parameter is another thing than the parameter
+        for pn, pt in e.params:
+            if r.random() < 0.3:
+                SHADOWED[0] += 1
+                stmts.append(oalsem.assign(oalsem.var(pn), self.expr(pt, e, rank, 1, locals_)))
+                locals_[pn] = pt
         if e.kind == 'iop' and r.random() < 0.6:
             bump = [x for x in self.elems[:rank] if x.name == 'bump_all']
             pair = [x for x in self.elems[:rank] if x.name == 'pair']
@@ -750,3 +757,4 @@ def run(ctx):
     for k, v in DER_FORMS.items():
         ctx.hit('Call.derived-attribute-' + k, v)
     ctx.hit('Call.argument-order-observable', ARG_ORDER[0])
+    ctx.hit('Scope.local-named-like-parameter', SHADOWED[0])
